@@ -415,6 +415,15 @@ Example C11_ex_decorator :
     [EIterStart TSuccess; EIterOpened true; EIterFetched 1 true; EIterAvg true; EIterSum true] ].
 Proof. vm_compute. reflexivity. Qed.
 
+(* C11x_oracle_sound_checked / C11_decorator_case_truthful are not vacuous: the case made of the decorator model's own run
+   of ex_wops over memkv is clean, checked (answers and emission log) and judged None *)
+Definition ex_wcase : c11x_case :=
+  let r := w_run memkv (w_init memkv) ex_wops in
+  KWrapMetrics EMem (combine ex_wops (snd r)) (a_dump memkv (w_in (fst r))).
+Example C11_ex_decorator_case :
+  c11x_cleanb ex_wcase = true /\ c11x_check ex_wcase = true /\ c11x_emissions_check ex_wcase = true /\ c11x_oracle ex_wcase = None.
+Proof. repeat split; vm_compute; reflexivity. Qed.
+
 (* ---- non-vacuity ---- *)
 
 (* the relations are inhabited by a non-trivial state, and a sequence with a failing second condition, a CAS on a
